@@ -22,6 +22,12 @@
 (* its current ctx back to the pool, from where the next connection takes    *)
 (* it (Open); a ctx left to a timed-out handler is never given back.         *)
 (*                                                                         *)
+(* The timeout response stored by TimeoutError* (tresp) is a snapshot: what  *)
+(* the handler writes afterwards - into ctx.Response, or into the Response   *)
+(* object it passed to TimeoutErrorWithResponse (ctx.Response itself, a       *)
+(* Response of its own, an acquired one that is later overwritten in place,   *)
+(* released and acquired again by somebody else) - never reaches it.          *)
+(*                                                                         *)
 (* The handler goroutine mutates the Response of the ctx it was given at    *)
 (* any time, also after the timeout.  Contents are abstract values:         *)
 (*   <<"clean",0,0,0>>, <<"H", conn, idx, k>> (k-th mutation by the handler *)
